@@ -36,7 +36,8 @@ CHECKS = {
              'isolation / restore-on-exit for every interleaving of two thread programs; each profile is executed on '
              'the real backends with a JAX realisation of the free program whose state carries the consumed tokens and '
              'is poisoned by a padding batch (some profiles call the same for_each_client function three times with the '
-             'shared input updated in between); each schedule is executed on real threads.',
+             'shared input updated in between; some carry typed PRNG keys as input / batch leaves, some use client ids of '
+             'other types); each schedule is executed on real threads.',
         note='Forced host CPU devices stand in for accelerators; buffer donation of the jit backend is a design-level '
              'statement on this platform (caller arrays are inspected after every call).',
         design='5/C02'),
@@ -143,7 +144,9 @@ CHECKS = {
              'checkpointed copy, and on a second algorithm object that continues from the restored state) and Immutable (no '
              'existing state changes fingerprint or loses a buffer); FedAvg also runs on haiku-shaped nested parameters with '
              'a freezing server optimizer; the round-1 state is also restored and continued in another interpreter with its '
-             'own hash seed; a third of the round trips go through jax.device_get.',
+             'own hash seed; a third of the round trips go through jax.device_get; the compression aggregators are also applied '
+             'directly, twice to the same client updates and state (device, host, shared update objects), which must stay '
+             'readable and unchanged.',
         note='Bit-identical comparison on the CPU backend; fingerprints include nested container key sets and deleted '
              'buffers; rank >= 1 leaves for the rotation-based aggregators.',
         design='5/C10'),
@@ -169,8 +172,9 @@ CHECKS = {
              'parameters (penalty toward the initial parameters reported); for random instances with SGD or momentum on '
              'clients and server, repeated participation and 1-3 rounds TLC computes the exact expected parameters and '
              'each real algorithm with its degenerate hyper-parameters must reproduce them round after round; cohorts may '
-             'list a client twice; with a key-using loss FedProx must reach TLC\'s exact FedAvg values for the keys FedAvg '
-             'draws with.',
+             'list a client twice; with a key-using loss FedProx and MimeLite(SGD, 1) must reach TLC\'s exact FedAvg values for '
+             'the keys FedAvg draws with; FedAvg, HypCluster(1), MimeLite and Mime are also compared with an L2 regulariser; '
+             'variants rotate through the jit, debug and pmap backends.',
         note='Exact island as in C01; MimeLite/Mime with plain SGD base as the property states; Mime instances give every '
              'client with examples exactly one local step.',
         design='5/C12'),
